@@ -2,7 +2,9 @@
 import store_hist as H
 
 ID = "C02"
-THEOREMS = []
+THEOREMS = ["C02_init_mirror_any", "C02_init_mirror", "C02_step_mirror", "C02_history_mirror",
+            "C02_mirror_meaning", "C02_owners_spec", "C02_model_meets_spec", "C02_rank_mirrors_spec",
+            "C02_oracle_meaning", "C02_mirror_observed"]
 COQ_IMPORTS = "From FT Require Import Model.Base Model.Obs Model.Store Model.StoreCheck."
 CHECK_VO = ["Model/StoreCheck.v"]
 CHECKER = "c02_checker"
@@ -12,8 +14,28 @@ RULE = ("case = (tensor tree of depth 1-3 with explicit defaults / empty sub-fib
         "1-10 public operations addressed by coordinate path); observation = state snapshot (raw tree, per-rank "
         "fiber lists as paths, owner flags) before the history and after every step plus each step's outcome and "
         "return value. distinct = distinct canonical JSON; non-trivial = non-empty tree and >= 1 op")
-TRUSTED = []
-ASSUMPTIONS = []
+TRUSTED = ["Coq 8.16.1 kernel (coqc; coqchk in the thorough tier); vm_compute used for the Example only",
+           "Print Assumptions of every C02 theorem: Closed under the global context",
+           "hand-written model coq/Model/Store.v (shared with C01/C03): fiber identities as numbers in the interior nodes, "
+           "Rank.fibers as per-rank identity lists, Fiber._owner as the rank index stored in the node; load = Tensor.setRoot/_addFiber "
+           "(DFS pre-order registration), get_ref = getPayloadRef/_createDefault(addtorank=True)+Rank.append, clear = _disownPayloads "
+           "(clear() pops every descendant fiber from its rank's list); tied to /repo by the per-step differential correspondence of "
+           "this run (tree, per-rank lists as paths, owner flags after every step)",
+           "harness/store_hist.py (generator, implementation driver, snapshot: rank lists are read from Tensor.ranks[i].getFibers() "
+           "and mapped to paths by object identity against a raw DFS from getRoot()), harness/check.py",
+           "oracle c02_holds (Model/StoreCheck.v mirror_state: per rank, entries all resolvable, pairwise distinct paths, as many as "
+           "fibers at that depth, each a path of that depth; owner flag) evaluated on the implementation's observation"]
+ASSUMPTIONS = ["operation set of the model (same as C01): getPayloadRef(+write), getPayload, append(leaf), __setitem__(leaf/coordinate), clear, "
+               "updateCoords (affine and table-driven), updatePayloads, iterRangeShapeRef, getPosition/getPositionRef/getPayload/getPayloadRef "
+               "with start_pos, on tensors built by Tensor.fromFiber-style loading (depth 1-3 in the explored cases; the theorems are for any depth)",
+               "NOT in the model, hence not covered by the C02 theorems: the other constructors (fromUncompressed, fromRandom, fromYAMLfile, "
+               "makePopulated), deepcopy, transform results (each ends in Tensor.fromFiber = load, but the transforms themselves are not modelled "
+               "here), populate loops with create-then-pop (C05), fiber-valued append/extend/__setitem__ and fiber <<= (suspect S22/S7b), "
+               "rank chaining (next_rank pointers: ranks are a list in the model, so chaining is structural)",
+               "C02_step_mirror/C02_history_mirror assume wf_st s (C01's invariant, itself preserved by every step: C01_step_wf) only to know the "
+               "root is a fiber and n >= 1; C02_init_mirror_any needs no well-formedness at all",
+               "C02_model_meets_spec and C02_oracle_meaning are stated for well-formed cases/snapshots (wf_case, wf_tree: strictly increasing "
+               "coordinates, uniform depth) - with duplicate coordinates a path would not name one fiber"]
 case_to_coq = H.case_to_coq
 run_impl = H.run_impl
 nontrivial = H.nontrivial
